@@ -7,6 +7,9 @@ import (
 )
 
 func main() {
+	if pipeline.ChildMain() {
+		return
+	}
 	emit.Main("C06", func(seed int64, tier, outDir string) (*emit.Summary, error) {
 		sum, err := c06.Run(seed, tier, outDir)
 		if err != nil {
